@@ -30,6 +30,27 @@ theorem sliceSomeX_nohole (g : G L D) (v : Nat) (p : Nat → Nat → L → Bool)
   · have : (GX.mk g ([] : List Nat)).acc v = false := by simp [GX.acc, hv]
     rw [this]; unfold sliceSome; simp [hv]
 
+/-- when no removed slot is among the vertices reached from `v`, the removed slots play no part: the slice is the slice
+    of the underlying tables, so every statement of C13 about `sliceSome` holds for it -/
+theorem sliceSomeX_eq (x : GX L D) (v : Nat) (p : Nat → Nat → L → Bool) (hv : x.acc v = true) (done : List Nat)
+    (hd : sliceDone x.g v p = some done) (hh : ∀ u ∈ done, u ∉ x.holes) : sliceSomeX x v p = sliceSome x.g v p := by
+  unfold sliceSomeX
+  rw [if_pos hv, hd]
+  have : done.any (fun u => x.holes.contains u) = false := by
+    rw [List.any_eq_false]; intro u hu; simpa using hh u hu
+  simp only [this, Bool.false_eq_true, if_false]
+
+/-- and when one is, the call panics (`vertices.get(v).unwrap()`) -/
+theorem sliceSomeX_panics (x : GX L D) (v : Nat) (p : Nat → Nat → L → Bool) (done : List Nat)
+    (hd : sliceDone x.g v p = some done) (u : Nat) (hu : u ∈ done) (hh : u ∈ x.holes) : sliceSomeX x v p = none := by
+  unfold sliceSomeX
+  split
+  · rw [hd]
+    have : done.any (fun u => x.holes.contains u) = true := by
+      rw [List.any_eq_true]; exact ⟨u, hu, by simpa using hh⟩
+    simp only [this, if_true]
+  · rfl
+
 /-- the graph it returns satisfies the memory-safety invariant -/
 theorem ms_sliceSomeX (x : GX L D) (g' : G L D) (v : Nat) (p : Nat → Nat → L → Bool) (hc : 0 < cap x.g)
     (hs : sliceSomeX x v p = some g') : MS g' := by
@@ -44,5 +65,46 @@ theorem ms_sliceSomeX (x : GX L D) (g' : G L D) (v : Nat) (p : Nat → Nat → L
 
 /-- the graph as `vertices.iter()` shows it: a removed slot is not there -/
 def blankHoles (x : GX L D) : G L D := x.holes.foldl (fun g h => setTag g h 0) x.g
+
+theorem blank_fold (hs : List Nat) : ∀ (g : G L D),
+    cap (hs.foldl (fun g h => setTag g h 0) g) = cap g ∧
+    (∀ w, w < cap g → tag (hs.foldl (fun g h => setTag g h 0) g) w = if w ∈ hs then 0 else tag g w) ∧
+    (∀ w, edg (hs.foldl (fun g h => setTag g h 0) g) w = edg g w) ∧
+    (∀ w, pers (hs.foldl (fun g h => setTag g h 0) g) w = pers g w) ∧
+    (∀ w, dat (hs.foldl (fun g h => setTag g h 0) g) w = dat g w) := by
+  induction hs with
+  | nil => intro g; simp
+  | cons h hs ih =>
+    intro g
+    simp only [List.foldl_cons]
+    obtain ⟨c, t, e, p, d⟩ := ih (setTag g h 0)
+    refine ⟨by rw [c]; simp, ?_, by intro w; rw [e]; simp, by intro w; rw [p]; simp, by intro w; rw [d]; simp⟩
+    intro w hw
+    rw [t w (by simpa using hw), tag_setTag]
+    by_cases h1 : w ∈ hs
+    · simp [h1]
+    · by_cases h2 : h = w
+      · subst h2; simp [h1, hw]
+      · have : ¬ w = h := fun e => h2 e.symm
+        simp [h1, h2, this]
+
+/-- **what the exports see**: the present vertices of `blankHoles x` are exactly `keysX x` — the present vertices that were
+    not removed — with their edges, data and read status untouched; so C18's and C20's statements about the exported
+    document (one node per present vertex, ascending, its edges and data) hold for a graph with removed slots, read as
+    statements about `keys()` of that graph -/
+theorem keys_blankHoles (x : GX L D) : keys (blankHoles x) = keysX x := by
+  obtain ⟨c, t, _⟩ := blank_fold x.holes x.g
+  unfold keys keysX blankHoles
+  rw [c]
+  apply List.filter_congr
+  intro w hw
+  have hw' : w < cap x.g := by simpa using hw
+  rw [t w hw']
+  by_cases h : w ∈ x.holes <;> simp [h]
+
+theorem view_blankHoles (x : GX L D) (w : Nat) :
+    edg (blankHoles x) w = edg x.g w ∧ pers (blankHoles x) w = pers x.g w ∧ dat (blankHoles x) w = dat x.g w := by
+  obtain ⟨_, _, e, p, d⟩ := blank_fold x.holes x.g
+  exact ⟨e w, p w, d w⟩
 
 end Sodg
